@@ -558,11 +558,20 @@ func recordsScenario(s *Sim, params map[string]string) {
 					recs := make([]kafka.Record, len(subs))
 					for j, sb := range subs {
 						recs[j] = kafka.Record{Time: time.UnixMilli(sb.tms).Add(time.Duration(t.Intn("work", 1000)) * time.Microsecond), Headers: sb.hdr}
+						// (a third of the calls hand over keys and values as a plain
+						// Bytes implementation: Read, Close and Len, nothing else)
+						plain := t.Intn("work", 3) == 0
+						mk := func(b []byte) kafka.Bytes {
+							if plain {
+								return &plainBytes{b: b}
+							}
+							return kafka.NewBytes(b)
+						}
 						if sb.key != nil {
-							recs[j].Key = kafka.NewBytes(sb.key)
+							recs[j].Key = mk(sb.key)
 						}
 						if sb.val != nil {
-							recs[j].Value = kafka.NewBytes(sb.val)
+							recs[j].Value = mk(sb.val)
 						}
 					}
 					ctx, cancel := context.WithTimeout(context.Background(), 5*time.Second)
@@ -695,3 +704,25 @@ func briefBatches(bs []rc.Batch) string {
 	}
 	return out
 }
+
+// plainBytes is the smallest kafka.Bytes: no WriteTo, no ReadAt, no Seek.
+type plainBytes struct {
+	b   []byte
+	off int
+}
+
+func (p *plainBytes) Read(q []byte) (int, error) {
+	if p.off >= len(p.b) {
+		return 0, io.EOF
+	}
+	// short reads, as a streaming source gives them
+	n := len(q)
+	if n > 7 {
+		n = 7
+	}
+	n = copy(q[:n], p.b[p.off:])
+	p.off += n
+	return n, nil
+}
+func (p *plainBytes) Close() error { return nil }
+func (p *plainBytes) Len() int     { return len(p.b) - p.off }
